@@ -151,7 +151,10 @@ class EncodeBodySection(Contract):
             I.oblige(st, f"C08.one_relative_width_per_displayed_column@L{site}", to_z3(n) == to_z3(pd.w), "post", site)
             k = z3.Int("k")
             ones = ForAll([k], Implies(And(0 <= k, k < to_z3(n)), to_z3(get(k)) == 1))
-            I.oblige(st, f"C08.relative_widths_are_the_displayed_columns_or_equal_shares@L{site}", Or(z3.BoolVal(same(rel, g.get("rel"))), ones), "post", site)
+            # the user's (displayed) relative widths whenever there are any; equal shares only when the reduced attributes carry none
+            given = to_z3(st.obj(g["rel"]).length) > 0 if g.get("rel") is not None else z3.BoolVal(False)
+            I.oblige(st, f"C08.relative_widths_are_the_displayed_columns_widths_equal_shares_only_without_them@L{site}",
+                     Or(And(given, z3.BoolVal(same(rel, g.get("rel")))), And(Not(given), ones)), "post", site)
             cw = st.alloc(ListObj(length=to_z3(n), get=lambda j: z3.Real(fresh_name("boundary")), fresh=True))
             g["cw"] = cw
             return cw
